@@ -9,6 +9,7 @@ covered by the tie only (xz tool, Wuffs std/lzma + std/xz on every generated pay
 import WuffsVerif.Proof.LzmaAppend
 import WuffsVerif.Proof.LzmaHeaders
 import WuffsVerif.Proof.LzmaWuffsSim
+import WuffsVerif.Proof.XzWuffsSim
 import WuffsVerif.Proof.LzmaBound2
 import WuffsVerif.Proof.LzmaFuel
 
@@ -278,8 +279,9 @@ range-decoder start-up with its `#bad code` tests, end-of-chunk tests `stashed_b
 `lzma2_encoded_length_have == want`) and the LITERAL path of `decode_bitstream_slow?`, with the wrapping u32
 arithmetic and the table layout (`probs_ao00[(state << 4) | (pos & pb_mask)]`, `probs_lit[index_lit][tree_node]`) of
 the Wuffs text; whatever a literal-only stream cannot reach answers `unmodelled`.  It is tied to the real decoder by
-the `wdec` op lines (valid, extended and truncated encodings).  The XZ container around the LZMA2 chunks
-(`std/xz/decode_xz.wuffs`), `decode_bitstream_fast!` and the xz tool are covered by the tie only. -/
+the `wdec` op lines (valid, extended and truncated encodings).  `Model/XzWuffs.lean` does the same for the XZ
+container (`std/xz/decode_xz.wuffs`).  `decode_bitstream_fast!`, suspension / resumption with partial buffers
+and the xz tool (liblzma) are covered by the tie only. -/
 
 /-- `xz_conformance_partial` (LZMA): the Wuffs decoder accepts `FileFormatLZMA.Encode(src)` for every `src`,
     returns exactly `src`, leaves exactly the trailing bytes unread — in particular the first code byte is
@@ -301,6 +303,20 @@ theorem wuffs_lzma2_accepts (src rest : List UInt8) :
 theorem xz_payload_is_chunks (src : List UInt8) :
     ∃ rest, (encodeXz #[] src).toList = xzHeader24 ++ (chunksBytes src ++ 0x00 :: rest) :=
   ⟨_, encodeXz_toList src⟩
+
+/-- `xz_conformance_partial` (XZ file): the model of the Wuffs `std/xz` decoder (`Model/XzWuffs.lean`, mirroring
+    `std/xz/decode_xz.wuffs`: stream header, block header with its padding and CRC-32, the LZMA2 payload through
+    the std/lzma model, block padding, CRC-32 of the data, `verify_index?` with its size sums and hashes and
+    its rejection of non-minimal uvarints, index padding and CRC-32, `verify_footer?`, footer magic) accepts
+    `FileFormatXz.Encode(src)` for every `src`, returns exactly `src` and leaves the trailing bytes unread. -/
+theorem wuffs_xz_accepts (src tail : List UInt8) (h : src.length < 2 ^ 60) :
+    WXz.decodeXz ((encodeXz #[] src).toList ++ tail) = WLzma.Res.ok (pushList #[] src) tail :=
+  WXz.xz_accepts src tail h
+
+/-- instance: the empty payload (a block whose LZMA2 stream is just the end marker, one index record) -/
+example : WXz.decodeXz (encodeXz #[] []).toList = WLzma.Res.ok #[] [] := by
+  have := wuffs_xz_accepts [] [] (by decide)
+  rwa [List.append_nil] at this
 
 /-- the Wuffs text of "decodeTheNextBym()" and Go's `prob.decodeBit` are the same function on 32-bit states -/
 theorem wuffs_bym_is_decodeBit (p : Nat) (d : RangeDecoder) (hp : p ≤ 2048) (hb : d.bits < d.width)
